@@ -1,7 +1,9 @@
 (* C03 -- property theorems only.  Model: coq/model/FortranTarget.v; the shape switches come from
    coq/gen/GenC03.v (fortran.py, expressions.py, transform.py) and coq/gen/GenLang.v.
    The theorems type-check only for the repaired shapes (c03_ne_fortran, c03_cond_honoured,
-   c03_ubound_m1, c03_switch_exits, c03_next_first = true); for every other shape
+   c03_ubound_m1, c03_switch_exits, c03_next_first = true) and for BOTH positions of
+   c03_ite_flag_first and c03_guard_outside (guard of a looped assignment lowered inside / outside
+   its loops, fixes/C01_guard_outside_loops.patch -- see C03_guard_shapes); for every other shape
    proofs/FortranTargetProofs.v has a refutation with a concrete witness (C03_shapes_matter).
    PARTIAL: what is related is the structured program handed to the Fortran emitter (lowered in
    program order, before simplify_ast and the four rewriting passes -- C05/C06/C07) and the
@@ -10,12 +12,14 @@
 From Coq Require Import List String Bool.
 Import ListNotations.
 From Dagrt Require Import GenLang GenC03 Lang Builder Sched FortranTarget FortranTargetProofs.
+From Dagrt Require Import FortranPrinter FortranPrinterProofs.
 
 Definition is_state_var : var -> bool := is_state_of state_exact state_prefixes.
 Definition persistent_var : var -> bool := is_state_of interp_keep_exact interp_keep_prefixes.
 Notation build_model := (build_prog lang_lhs_sub_reads lang_loop_bound_reads is_state_var exec_state_token).
 Notation fortran_calls F g tids :=
-  (fcalls F g c03_cond_honoured c03_ite_flag_first c03_ubound_m1 c03_switch_exits c03_next_first tids is_state_var).
+  (fcalls F g c03_cond_honoured c03_ite_flag_first c03_ubound_m1 c03_switch_exits c03_next_first c03_guard_outside
+          tids is_state_var).
 
 (* For every method description built with CodeBuilder (one builder per phase) inside the supported
    subset, every behaviour of the user functions, every initial state holding persistent variables
@@ -40,7 +44,7 @@ Theorem C03_pipeline_partial : forall F g tids bl P,
          (fortran_calls F g tids P n s first) (isteps F g tids persistent_var P n s empty first).
 Proof.
   exact (fun F g tids bl P Hb HS =>
-           pipeline_holds c03_ite_flag_first F g tids is_state_var persistent_var
+           pipeline_holds c03_ite_flag_first c03_guard_outside F g tids is_state_var persistent_var
                           lang_lhs_sub_reads lang_loop_bound_reads exec_state_token bl P st_split Hb HS).
 Qed.
 Print Assumptions C03_pipeline_partial.
@@ -51,7 +55,7 @@ Theorem C03_pipeline_from_any_state_partial : forall F g tids P,
   forall n s_t s_i r nx, CRel is_state_var persistent_var s_t s_i r ->
     orel is_state_var persistent_var
          (fortran_calls F g tids P n s_t nx) (isteps F g tids persistent_var P n s_i r nx).
-Proof. exact (fun F g tids => pipeline F g c03_ite_flag_first tids is_state_var persistent_var st_split). Qed.
+Proof. exact (fun F g tids => pipeline F g c03_ite_flag_first c03_guard_outside tids is_state_var persistent_var st_split). Qed.
 Print Assumptions C03_pipeline_from_any_state_partial.
 
 Theorem C03_compiles_partial : forall P, compiles c03_ne_fortran P = true.
@@ -77,6 +81,23 @@ Proof.
 Qed.
 Print Assumptions C03_step_any_schedule.
 
+(* the two lowerings of a guarded looped assignment.  The pipeline theorems above hold for both,
+   because they say nothing when the target is undefined.  They differ exactly there: with the guard
+   INSIDE the loops the emitted code evaluates the loop bounds although the guard is false -- on
+   wit_guard (the bound is a local assigned under the same guard) the target model is undefined in
+   the first call, the interpreter is not; with the guard OUTSIDE the target is defined on it and
+   agrees with the interpreter after every call. *)
+Theorem C03_guard_shapes :
+  supported st_of wit_guard_P = true /\
+  fcalls F03 true true true true true true false [] st_of wit_guard_P 1 (mk_store wit_guard_init) "pa"
+    = FOUndef /\
+  forall n, (n <= 4)%nat ->
+    let t := fcalls F03 true true true true true true true [] st_of wit_guard_P n (mk_store wit_guard_init) "pa" in
+    let i := isteps F03 true [] ps_of wit_guard_P n (mk_store wit_guard_init) empty "pa" in
+    defined_pair t i && agree_on ["<p>x"; "<p>z"] t i = true.
+Proof. exact guard_inside_undefined. Qed.
+Print Assumptions C03_guard_shapes.
+
 (* the three slots written by emit_inst_YieldState are the model's *)
 Theorem C03_ret_slots : c03_ret_prefixes = ret_prefixes.
 Proof. exact eq_refl. Qed.
@@ -85,10 +106,31 @@ Print Assumptions C03_ret_slots.
 (* every shape switch is load-bearing: with any one of them in its other position the statement is
    false, by a concrete program (also stored in corpus/C03/) *)
 Theorem C03_shapes_matter :
-  (forall ff um sw nf, ~ pipeline_statement false ff um sw nf) /\
-  (forall ff sw nf, ~ pipeline_statement true ff false sw nf) /\
-  (forall ff nf, ~ pipeline_statement true ff true false nf) /\
-  (forall ff, ~ pipeline_statement true ff true true false) /\
+  (forall ff um sw nf go, ~ pipeline_statement false ff um sw nf go) /\
+  (forall ff sw nf go, ~ pipeline_statement true ff false sw nf go) /\
+  (forall ff nf go, ~ pipeline_statement true ff true false nf go) /\
+  (forall ff go, ~ pipeline_statement true ff true true false go) /\
   ~ compiles_statement false.
 Proof. exact (conj cond_refuted (conj ubound_refuted (conj switch_refuted (conj next_refuted ne_refuted)))). Qed.
 Print Assumptions C03_shapes_matter.
+
+(* the logical operators as FortranExpressionMapper prints them (precedences read off map_logical_or /
+   map_logical_and / map_logical_not and pymbolic's table, coq/gen/GenC03.v): for every tree of
+   and / or / not over atoms (operand lists of at least two, no negation directly under a negation)
+   and every valuation of the atoms, reading the printed token string with Fortran's grammar of
+   logical expressions gives the value of the tree.  Type-checks only while the six numbers satisfy
+   prec_ok (an .or. under .and. or .not., and an .and. under .not., get parentheses). *)
+Theorem C03_logical_printing : forall v e, wf e = true ->
+  fortran_value v (bprint c03_prec_or_child c03_prec_or_own c03_prec_and_child c03_prec_and_own
+                          c03_prec_not_child c03_prec_not_own 0 e) = Some (beval v e).
+Proof.
+  exact (printer_holds c03_prec_or_child c03_prec_or_own c03_prec_and_child c03_prec_and_own
+                       c03_prec_not_child c03_prec_not_own eq_refl).
+Qed.
+Print Assumptions C03_logical_printing.
+
+(* a printer that hands the operands of .and. the precedence of .or. (so that `a and (b or c)` is
+   printed `a .and. b .or. c`) falsifies the statement: witness a = false, c = true *)
+Theorem C03_logical_precedence_matters : forall oc oo ao nc no, ~ printer_statement oc oo oo ao nc no.
+Proof. exact printer_refuted. Qed.
+Print Assumptions C03_logical_precedence_matters.
